@@ -914,8 +914,9 @@ class CompositeEnvelope:
             if all(s in ps.state_objs for s in state_objs):
                 return
 
-        # Check if all states are included in composite envelope
-        assert all(s in self.state_objs for s in state_objs)
+        # Check if all states are included in composite envelope (by identity,
+        # Fock states holding the same label compare equal)
+        assert all(any(s is so for so in self.state_objs) for s in state_objs)
 
         """
         Get all product states, which include any of the
@@ -1390,8 +1391,9 @@ class CompositeEnvelope:
         if not isinstance(fock, Fock):
             raise ValueError("Only Fock spaces can be resized")
 
-        # Check if fock is in this composite envelope
-        if fock not in self.state_objs:
+        # Check if fock is in this composite envelope (by identity, Fock
+        # states holding the same label compare equal)
+        if not any(fock is so for so in self.state_objs):
             raise ValueError(
                 "Tried to resizing fock, which is not a part of this envelope"
             )
